@@ -102,6 +102,10 @@ func c13Specs(tier string) []*XSpec {
 		al := perKey(coll, Op{K: "set", V: "s"}, Op{K: "del"}, Op{K: "get"})
 		al = append(al, Op{K: "set", V: "s", Key: keys[len(keys)-1]})
 		al = append(al, Op{K: "flush"}, Op{K: "restart", A: []int{0}}, Op{K: "restart", A: []int{1}})
+		if tier != "quick" {
+			// hint dump + merge (registers every same-hash group it sees in the collision table), exit without Close
+			al = append(al, Op{K: "dump"}, Op{K: "merge"}, Op{K: "restart", A: []int{4}})
+		}
 		return &XSpec{Property: "C13", Name: fmt.Sprintf("%s-k%d", c.Name, len(coll)), Cfg: c, Alphabet: al, Depth: d, Keys: keys, Exec: c13Exec,
 			Prune: func(hist []Op, op Op) bool {
 				// at most one GC per history, at most two restarts
